@@ -20,6 +20,7 @@
 """Git store."""
 
 import configparser
+import contextlib
 import errno
 import logging
 import os
@@ -753,7 +754,9 @@ class TreeGitStore(GitStore):
         Returns: etag
         """
         try:
-            with locked_index(self.repo.index_path()) as index:
+            with locked_index(self.repo.index_path()) as index, self._keep_file(
+                name, index
+            ):
                 p = os.path.join(self.repo.path, name)
                 with open(p, "wb") as f:
                     f.writelines(data)
@@ -772,6 +775,32 @@ class TreeGitStore(GitStore):
         except OSError as exc:
             if exc.errno == errno.ENOSPC:
                 raise OutOfSpaceError() from exc
+            raise
+
+    @contextlib.contextmanager
+    def _keep_file(self, name, index):
+        """Put the working tree file of an item back if the write fails.
+
+        The file is written (or removed) before index and branch are updated;
+        when that update fails (the branch is locked by another git process,
+        the disk is full) the item has not changed and neither may its file.
+        """
+        try:
+            previous = self.repo.object_store[index[name.encode(DEFAULT_ENCODING)].sha]
+        except KeyError:
+            previous = None
+        try:
+            yield
+        except BaseException:
+            p = os.path.join(self.repo.path, name)
+            try:
+                if previous is None:
+                    os.unlink(p)
+                else:
+                    with open(p, "wb") as f:
+                        f.writelines(previous.chunked)
+            except OSError:
+                pass
             raise
 
     def delete_one(self, name, message=None, author=None, etag=None):
@@ -809,7 +838,9 @@ class TreeGitStore(GitStore):
             if etag.encode("ascii") != current_etag:
                 raise InvalidETag(name, etag, current_etag.decode("ascii"))
         try:
-            with locked_index(self.repo.index_path()) as index:
+            with locked_index(self.repo.index_path()) as index, self._keep_file(
+                name, index
+            ):
                 try:
                     os.unlink(p)
                 except FileNotFoundError:
